@@ -66,8 +66,11 @@ func NewTable(file storage.File) *Table {
 }
 
 type TableDocument struct {
-	StartKey    string
-	EndKey      string
+	// Keys are binary (they start with the big-endian key group), so they are
+	// kept as bytes: JSON encodes []byte as base64, while a string would have
+	// its invalid UTF-8 replaced and the table's key range would change.
+	StartKey    []byte
+	EndKey      []byte
 	Size        uint64
 	EntriesSize uint64
 	URI         string
@@ -85,8 +88,8 @@ func NewTableFromDocument(fs storage.FileSystem, dataOwnership kv.DataOwnership,
 		file:        fs.Open(doc.URI),
 		size:        int64(doc.Size),
 		entriesSize: int64(doc.EntriesSize),
-		startKey:    []byte(doc.StartKey),
-		endKey:      []byte(doc.EndKey),
+		startKey:    doc.StartKey,
+		endKey:      doc.EndKey,
 		startSeqNum: doc.StartSeqNum,
 		endSeqNum:   doc.EndSeqNum,
 	}
@@ -101,8 +104,8 @@ func NewTableFromDocument(fs storage.FileSystem, dataOwnership kv.DataOwnership,
 	params := CleanupParams{
 		deleteFunc:    t.file.CreateDeleteFunc(),
 		dataOwnership: dataOwnership,
-		startKey:      []byte(doc.StartKey),
-		endKey:        []byte(doc.EndKey),
+		startKey:      doc.StartKey,
+		endKey:        doc.EndKey,
 		uri:           doc.URI,
 	}
 
@@ -352,8 +355,8 @@ func (t *Table) ensureMetadataLoaded() {
 
 func (t *Table) Document() TableDocument {
 	return TableDocument{
-		StartKey:    string(t.startKey),
-		EndKey:      string(t.endKey),
+		StartKey:    t.startKey,
+		EndKey:      t.endKey,
 		Size:        uint64(t.size),
 		EntriesSize: uint64(t.entriesSize),
 		URI:         t.file.URI(),
